@@ -123,6 +123,8 @@ void sim_mpi_configure(uint64_t seed, uint64_t min_delay_ns, uint64_t max_delay_
 void sim_mpi_get_stats(struct sim_mpi_stats* out);
 // 0 = in flight, 1 = complete in the transport but not yet reported, 2 = reported, -1 = not a request
 int sim_mpi_request_state(void* handle);
+/* while on, no request completes; switching it off re-draws every outstanding completion time from now */
+void sim_mpi_hold(int on);
 
 #ifdef __cplusplus
 }
